@@ -23,6 +23,7 @@ fn main() {
     let mut programs: Option<usize> = std::env::var("E3_PROGRAMS").ok().and_then(|s| s.parse().ok());
     let mut pass: Vec<String> = vec![];
     let mut dump = false;
+    let mut mermaid = false;
     let mut only: Option<Vec<String>> = None;
     let mut it = argv.iter();
     while let Some(a) = it.next() {
@@ -40,6 +41,10 @@ fn main() {
             }
             "--programs" => programs = it.next().and_then(|s| s.parse().ok()),
             "--dump" => dump = true,
+            "--mermaid" => {
+                dump = true;
+                mermaid = true;
+            }
             "--only" => only = it.next().map(|s| s.split(',').map(|x| x.to_string()).collect()),
             s if !s.starts_with("--") && prop.is_empty() => prop = s.to_string(),
             s => {
@@ -61,6 +66,14 @@ fn main() {
         eprintln!("HARNESS: bad tier {tier}");
         std::process::exit(2);
     }
+    // the reference interpreter must agree with the operator documentation before it is trusted
+    match e3_core::docex::check_doc_examples() {
+        Ok(n) => eprintln!("e3_ticksim: reference interpreter reproduces {n} documentation examples"),
+        Err(e) => {
+            eprintln!("HARNESS: the reference interpreter contradicts the operator documentation: {e}");
+            std::process::exit(2);
+        }
+    }
     let t0 = std::time::Instant::now();
     let corp = match &replay {
         Some(path) => match corpus::from_replay(&prop, path) {
@@ -81,6 +94,9 @@ fn main() {
             println!("=== {} ===", e.name);
             for (vn, v) in &e.variants {
                 println!("--- variant {vn}\n{}", e3_core::emit::dfir_text(v));
+                if mermaid {
+                    println!("{}", e3_core::precheck::mermaid(&e3_core::emit::dfir_text(v)).unwrap_or_else(|e| e));
+                }
             }
         }
         println!("rejected: {:?}", corp.rejected);
